@@ -533,6 +533,7 @@ impl Buffer {
                 data_type = SauceDataType::Character;
                 file_type = SAUCE_FILE_TYPE_TUNDRA_DRAW;
                 t_info1 = self.get_width();
+                t_info2 = self.get_height();
                 // no flags
                 t_info_str = String::new();
             }
